@@ -14,27 +14,32 @@ def c13(tier):
     if tier == "quick":
         runs.append(H("c13_blocks", "asan", E_BLOCKS + 3 * R_BLOCKS, None, env=ENV, timeout_per_case=30))
         runs.append(H("c13_graphdiv", "asan", E_GRAPH_QUICK + R_GRAPH, None, env=ENV, timeout_per_case=60))
-        # release code path (NDEBUG: no asserts, -O2) of everything, random families with other seeds-per-case
-        runs.append(H("c13_blocks", "plain", E_BLOCKS + 3 * R_BLOCKS, "3,5", env=ENV, timeout_per_case=30))
-        runs.append(H("c13_graphdiv", "plain", E_GRAPH_QUICK + R_GRAPH, None, env=ENV, timeout_per_case=60))
-        # thread/socket dependent parts on multi-socket virtual topologies
-        runs.append(H("c13_graphdiv", "asan", R_GRAPHOBJ, "4,4,4,4", env=ENV, params=dict(focus="graphobj"),
+        # release code path (NDEBUG: no asserts, -O2) of everything; salt => other random inputs than the asan runs
+        runs.append(H("c13_blocks", "plain", E_BLOCKS + 3 * R_BLOCKS, "3,5", env=ENV, params=dict(salt=1),
+                      timeout_per_case=30))
+        runs.append(H("c13_graphdiv", "plain", E_GRAPH_QUICK + R_GRAPH, None, env=ENV, params=dict(salt=1),
                       timeout_per_case=60))
-        runs.append(H("c13_graphdiv", "plain", R_GRAPHOBJ, "3,5", env=ENV, params=dict(focus="graphobj"),
+        # thread/socket dependent parts on multi-socket virtual topologies
+        runs.append(H("c13_graphdiv", "asan", R_GRAPHOBJ, "4,4,4,4", env=ENV, params=dict(focus="graphobj", salt=2),
+                      timeout_per_case=60))
+        runs.append(H("c13_graphdiv", "plain", R_GRAPHOBJ, "3,5", env=ENV, params=dict(focus="graphobj", salt=3),
                       timeout_per_case=60))
     else:
         runs.append(H("c13_blocks", "asan", E_BLOCKS + 6 * R_BLOCKS, None, env=ENV, timeout_per_case=60))
         runs.append(H("c13_graphdiv", "asan", E_GRAPH_THOROUGH + 3 * R_GRAPH, None, env=ENV, timeout_per_case=240))
-        runs.append(H("c13_blocks", "plain", E_BLOCKS + 6 * R_BLOCKS, "3,5", env=ENV, timeout_per_case=60))
-        runs.append(H("c13_graphdiv", "plain", E_GRAPH_THOROUGH + 3 * R_GRAPH, None, env=ENV, timeout_per_case=240))
-        for cfg, topo in (("asan", "4,4,4,4"), ("plain", "3,5"), ("asan", "smt:2x2x2"), ("plain", "12,12,8"),
-                          ("asan", "1,1,1,1"), ("plain", "8,8")):
-            runs.append(H("c13_graphdiv", cfg, 2 * R_GRAPHOBJ, topo, env=ENV, params=dict(focus="graphobj"),
-                          timeout_per_case=120))
-        runs.append(H("c13_blocks", "asan", E_BLOCKS + R_BLOCKS, "12,12,8", env=ENV, timeout_per_case=60))
+        runs.append(H("c13_blocks", "plain", E_BLOCKS + 6 * R_BLOCKS, "3,5", env=ENV, params=dict(salt=1),
+                      timeout_per_case=60))
+        runs.append(H("c13_graphdiv", "plain", E_GRAPH_THOROUGH + 4 * R_GRAPH, None, env=ENV, params=dict(salt=1),
+                      timeout_per_case=240))
+        # thread/socket dependent parts on other virtual topologies (no over-subscribed ones: on_each per graph)
+        for salt, (cfg, topo) in enumerate((("asan", "4,4,4,4"), ("plain", "3,5"), ("asan", "smt:2x2x2"),
+                                            ("asan", "1,1,1,1")), 2):
+            runs.append(H("c13_graphdiv", cfg, R_GRAPHOBJ, topo, env=ENV, params=dict(focus="graphobj", salt=salt),
+                          timeout_per_case=240))
         # DistGraph host ranges (libcusp computeMasters): dist build, 1..4 MPI hosts
         for np in (1, 2, 3, 4):
-            runs.append(H("c13_dist", "dist", 8, None, env=ENV, mpi=np, timeout_per_case=120, timeout_base=180))
+            runs.append(H("c13_dist", "dist", 8, None, env=ENV, mpi=np, params=dict(salt=np),
+                          timeout_per_case=120, timeout_base=180))
     return runs
 
 
